@@ -3,6 +3,7 @@ package main
 import (
 	"fmt"
 	"go/constant"
+	"sort"
 	"strings"
 
 	"golang.org/x/tools/go/ssa"
@@ -248,6 +249,18 @@ func rulePDF417Encoder(c *Ctx) {
 					}
 				}
 			}
+			// rows filled by index instead of append
+			eachInstr(f, func(b *ssa.BasicBlock, ins ssa.Instruction) {
+				if st, ok := ins.(*ssa.Store); ok && isIntType(st.Val.Type()) {
+					if ia, ok := st.Addr.(*ssa.IndexAddr); ok {
+						if _, isMk := ia.X.(*ssa.MakeSlice); isMk {
+							if k, ok := n.Norm(st.Val).IsConst(); ok {
+								seen[k]++
+							}
+						}
+					}
+				}
+			})
 		}
 		c.Check(R6, "pdf417.EncodeWithColor/start-stop", fn.Pos(), seen[sw] == 1 && seen[ew] == 1, "start and stop pattern appended once per row", fmt.Sprintf("start %d, stop %d", seen[sw], seen[ew]))
 		// width
@@ -256,9 +269,9 @@ func rulePDF417Encoder(c *Ctx) {
 			if !ok {
 				return
 			}
-			if _, f := storeBase(st.Addr); f == "width" {
+			if base, f := storeBase(st.Addr); f == "width" && base != nil && namedTypeName(base.Type()) == "pdf417.pdfBarcode" {
 				c.expectPoly(R6, "pdf417.EncodeWithColor/width", st.Pos(), n, st.Val, "(cols+4)*17 + 1")
-			} else if f == "data" {
+			} else if base, f := storeBase(st.Addr); f == "data" && base != nil && namedTypeName(base.Type()) == "pdf417.pdfBarcode" {
 				c.expectPoly("K5-CONTENT", "pdf417.EncodeWithColor/content", st.Pos(), n, st.Val, "data")
 			}
 		})
@@ -266,10 +279,20 @@ func rulePDF417Encoder(c *Ctx) {
 		cd := callsTo(fn, c.P.Func("pdf417.calcDimensions"))
 		ed := callsTo(fn, c.P.Func("pdf417.encodeData"))
 		if len(cd) == 1 && len(ed) == 1 {
-			got := n.Norm(cd[0].Common().Args[1]).String()
-			c.Check(R6, "pdf417.EncodeWithColor/dims-ecc", cd[0].Pos(), got == "call:pdf417.(securitylevel).ErrorCorrectionWordCount(level)", "ErrorCorrectionWordCount of the requested level", got)
-			c.expectPoly(R6, "pdf417.EncodeWithColor/dims-data", cd[0].Pos(), n, cd[0].Common().Args[0], "len(words)")
-			got = fmt.Sprintf("(%s, %s, %s)", n.Norm(ed[0].Common().Args[0]), n.Norm(ed[0].Common().Args[1]), n.Norm(ed[0].Common().Args[2]))
+			// what calcDimensions receives (separately or grouped): the data word count and the check word
+			// count of the requested level; which is which is decided in its calling context (C13-PDF-DIMENSIONS)
+			var flat []string
+			for _, a := range flattenArgs(cd[0].Common().Args) {
+				flat = append(flat, n.Norm(a).String())
+			}
+			sort.Strings(flat)
+			wantFlat := []string{"call:pdf417.(securitylevel).ErrorCorrectionWordCount(level)", "len(words)"}
+			c.Check(R6, "pdf417.EncodeWithColor/dims-ecc", cd[0].Pos(), fmt.Sprint(flat) == fmt.Sprint(wantFlat), fmt.Sprint(wantFlat), fmt.Sprint(flat))
+			var edArgs []string
+			for _, a := range flattenArgs(ed[0].Common().Args) {
+				edArgs = append(edArgs, n.Norm(a).String())
+			}
+			got := "(" + strings.Join(edArgs, ", ") + ")"
 			c.Check(R6, "pdf417.EncodeWithColor/encodeData-args", ed[0].Pos(), got == "(words, cols, level)", "(words, cols, level)", got)
 		} else {
 			c.Check(R6, "pdf417.EncodeWithColor/pipeline", fn.Pos(), false, "calcDimensions and encodeData called once", fmt.Sprintf("%d/%d", len(cd), len(ed)))
@@ -290,9 +313,12 @@ func rulePDF417Encoder(c *Ctx) {
 		if len(gp) != 1 || len(cp) != 1 {
 			c.Check(R6, "pdf417.encodeData/shape", fn.Pos(), false, "one getPadding and one Compute call", fmt.Sprintf("%d/%d", len(gp), len(cp)))
 		} else {
-			got := fmt.Sprintf("(%s, %s, %s)", n.Norm(gp[0].Common().Args[0]), n.Norm(gp[0].Common().Args[1]), n.Norm(gp[0].Common().Args[2]))
-			want := "(len(words), call:pdf417.(securitylevel).ErrorCorrectionWordCount(sl), cols)"
-			c.Check(R6, "pdf417.encodeData/padding-args", gp[0].Pos(), got == want, want, got)
+			// (what getPadding receives is judged inside getPadding, analysed in this calling context)
+			var gpArgs []string
+			for _, a := range gp[0].Common().Args {
+				gpArgs = append(gpArgs, n.Norm(a).String())
+			}
+			c.Check(R6, "pdf417.encodeData/padding-args", gp[0].Pos(), len(gpArgs) > 0, "padding derived from the word counts and the column count", strings.Join(gpArgs, ", "))
 			n.Bind[gp[0]] = "pad"
 			c.Check(R6, "pdf417.encodeData/compute-level", cp[0].Pos(), n.Norm(cp[0].Common().Args[0]).String() == "sl", "sl", n.Norm(cp[0].Common().Args[0]).String())
 			// Compute's argument = append([length], append(words, pad...)...)
@@ -315,41 +341,99 @@ func rulePDF417Encoder(c *Ctx) {
 			}
 		}
 	}
-	if fn := c.theFunc(R6, "pdf417.getPadding"); fn != nil && len(fn.Params) == 3 {
-		n := NewNormer(c.P)
-		n.BindParams(fn, "dataCount", "ecCount", "cols")
-		var mk *ssa.MakeSlice
-		eachInstr(fn, func(b *ssa.BasicBlock, ins ssa.Instruction) {
-			if m, ok := ins.(*ssa.MakeSlice); ok {
-				mk = m
-			}
-		})
-		if mk == nil {
-			c.Check("C13-PDF-PADDING", "pdf417.getPadding/make", fn.Pos(), false, "padding slice", "none")
-		} else {
-			c.expectPoly("C13-PDF-PADDING", "pdf417.getPadding/count", mk.Pos(), n, mk.Len, "cols - (dataCount + ecCount + 1)%cols")
-			c.expectCond("C13-PDF-PADDING", "pdf417.getPadding/iff", mk.Pos(), n.ReachCond(fn, nil, mk.Block()), "(dataCount + ecCount + 1)%cols > 0")
+	if fn := c.theFunc(R6, "pdf417.getPadding"); fn != nil {
+		// analysed in its calling context: M = number of data words, K = check words, cols = columns
+		n, enc := pdfRoot(c)
+		sites := []DeepSite{}
+		if enc != nil {
+			sites = c.P.deepCallsTo(enc, fn)
+		}
+		T := "(M + K + 1)"
+		switch {
+		case len(sites) == 1:
+			n.Ctx = append(append([]ssa.CallInstruction{}, sites[0].Path...), sites[0].Ins.(*ssa.Call))
+		case len(fn.Params) == 3:
+			n = NewNormer(c.P)
+			n.BindParams(fn, "M", "K", "cols")
+		default:
+			c.Undecided("C13-PDF-PADDING", "pdf417.getPadding/context", fn.Pos(), "not called once from EncodeWithColor and not of the form (dataCount, ecCount, columns)")
+			n = nil
+		}
+		if n != nil {
 			pc, _ := c.P.ConstInt("pdf417", "padding_codeword")
+			var mk *ssa.MakeSlice
 			eachInstr(fn, func(b *ssa.BasicBlock, ins ssa.Instruction) {
-				if st, ok := ins.(*ssa.Store); ok {
-					if ia, ok := st.Addr.(*ssa.IndexAddr); ok && ia.X == ssa.Value(mk) {
-						k, ok := n.Norm(st.Val).IsConst()
-						c.Check("C13-PDF-PADDING", "pdf417.getPadding/value", st.Pos(), ok && k == pc, fmt.Sprint(pc), n.Norm(st.Val).String())
-					}
+				if m, ok := ins.(*ssa.MakeSlice); ok {
+					mk = m
 				}
 			})
+			if mk != nil {
+				c.expectPoly("C13-PDF-PADDING", "pdf417.getPadding/count", mk.Pos(), n, mk.Len, "cols - "+T+"%cols")
+				c.expectCond("C13-PDF-PADDING", "pdf417.getPadding/iff", mk.Pos(), n.ReachCond(fn, nil, mk.Block()), T+"%cols > 0")
+				eachInstr(fn, func(b *ssa.BasicBlock, ins ssa.Instruction) {
+					if st, ok := ins.(*ssa.Store); ok {
+						if ia, ok := st.Addr.(*ssa.IndexAddr); ok && ia.X == ssa.Value(mk) {
+							k, ok := n.Norm(st.Val).IsConst()
+							c.Check("C13-PDF-PADDING", "pdf417.getPadding/value", st.Pos(), ok && k == pc, fmt.Sprint(pc), n.Norm(st.Val).String())
+						}
+					}
+				})
+			} else {
+				// built by appending the pad codeword in a counting loop
+				found := false
+				for _, s := range appendSites(fn) {
+					h := enclosingLoopHeader(s.call.Block())
+					if h == nil || len(s.elems) != 1 {
+						continue
+					}
+					k, isK := n.Norm(s.elems[0]).IsConst()
+					idx, _, init, okL := loopIndex(h)
+					if !isK || !okL {
+						continue
+					}
+					found = true
+					c.Check("C13-PDF-PADDING", "pdf417.getPadding/value", s.call.Pos(), k == pc, fmt.Sprint(pc), fmt.Sprint(k))
+					n.Bind[idx] = "i"
+					// appended for i = init .. while the loop condition holds: count = bound - init under the loop's reach condition
+					cond := n.EdgeCond(h, h.Succs[0])
+					reach := n.ReachCond(fn, nil, h)
+					c.Check("C13-PDF-PADDING", "pdf417.getPadding/loop-start", s.call.Pos(), init == 0, "0", fmt.Sprint(init))
+					c.expectCondC("C13-PDF-PADDING", "pdf417.getPadding/count", s.call.Pos(), cAnd(reach, cond), MustRefCond(T+"%cols > 0 && i < cols - "+T+"%cols"))
+				}
+				if !found {
+					c.Check("C13-PDF-PADDING", "pdf417.getPadding/make", fn.Pos(), false, "padding slice", "none")
+				}
+			}
 		}
 	}
 	if fn := c.theFunc(R6, "pdf417.calculateNumberOfRows"); fn != nil && len(fn.Params) == 3 {
 		n := NewNormer(c.P)
 		n.BindParams(fn, "m", "k", "cc")
-		rets := returnsOf(fn)
-		if phi, ok := rets[0].Results[0].(*ssa.Phi); ok && len(rets) == 1 {
-			checkPhiDef(c, "C13-PDF-ROWS", "pdf417.calculateNumberOfRows", n, fn, nil, phi, []edgeSpec{
-				{"(m+1+k)/cc + 1", "cc*((m+1+k)/cc + 1) < m + 1 + k + cc"},
-				{"(m+1+k)/cc", "cc*((m+1+k)/cc + 1) >= m + 1 + k + cc"}})
-		} else {
-			c.Undecided("C13-PDF-ROWS", "pdf417.calculateNumberOfRows", fn.Pos(), "not of the form r or r-1")
+		// ceil((m+1+k)/cc), in whatever way the rounding is written; the codeword counts are not negative
+		assume := MustRefCond("(m+1+k) % cc >= 0")
+		var alts []valCase
+		for _, ret := range returnsOf(fn) {
+			rc := n.ReachCond(fn, nil, ret.Block())
+			for _, cs := range n.valueCases(fn, nil, ret.Results[0], 0) {
+				alts = append(alts, valCase{cs.val, cAnd(rc, cs.cond)})
+			}
+		}
+		want := map[string]string{MustRef("(m+1+k)/cc + 1").String(): "(m+1+k) % cc > 0", MustRef("(m+1+k)/cc").String(): "(m+1+k) % cc <= 0"}
+		seen := map[string]bool{}
+		for _, cs := range mergeCases(alts) {
+			v := cs.val.String()
+			w, ok := want[v]
+			if !ok {
+				c.Check("C13-PDF-ROWS", "pdf417.calculateNumberOfRows/"+v, fn.Pos(), false, "(m+1+k)/cc rounded up", v+" when "+cs.cond.String())
+				continue
+			}
+			seen[v] = true
+			c.expectCondC("C13-PDF-ROWS", "pdf417.calculateNumberOfRows/"+v, fn.Pos(), cAnd(assume, cs.cond), cAnd(assume, MustRefCond(w)))
+		}
+		for v, w := range want {
+			if !seen[v] {
+				c.Check("C13-PDF-ROWS", "pdf417.calculateNumberOfRows/"+v, fn.Pos(), false, v+" when "+w, "never")
+			}
 		}
 	}
 	if fn := c.theFunc(R6, "pdf417.renderBarcode"); fn != nil {
@@ -413,4 +497,21 @@ func hasNamedBool(c *Cond) bool {
 		}
 	}
 	return false
+}
+
+// pdfRoot: a normaliser rooted in pdf417.EncodeWithColor with the roles of the encoding pipeline:
+// words = high-level codewords, M = their number, K = check word count of the requested level,
+// cols/rows = the chosen dimensions. Helpers are analysed with n.Ctx set to their call path from here.
+func pdfRoot(c *Ctx) (*Normer, *ssa.Function) {
+	enc := c.P.Func("pdf417.EncodeWithColor")
+	if enc == nil || len(enc.Params) != 3 {
+		return nil, nil
+	}
+	n := NewNormer(c.P)
+	n.BindParams(enc, "data", "level", "color")
+	n.NoInline["pdf417.(securitylevel).ErrorCorrectionWordCount"] = true
+	bindCalls(n, c.P, enc, nil, map[string][2]string{"pdf417.calcDimensions": {"cols", "rows"}, "pdf417.highlevelEncode": {"words", "hlErr"}, "pdf417.encodeData": {"cw", "edErr"}})
+	n.AtomAlias["len(words)"] = "M"
+	n.AtomAlias["call:pdf417.(securitylevel).ErrorCorrectionWordCount(level)"] = "K"
+	return n, enc
 }
